@@ -30,7 +30,7 @@ def clean():
 
 
 def suite():
-    junit = '/tmp/seedeval_junit.xml'
+    junit = '/tmp/seedeval_junit_%s.xml' % os.path.basename(WT)
     if os.path.exists(junit):
         os.remove(junit)
     # own network namespace: the RT tests bind fixed UDP ports, other jobs on this machine may hold them
@@ -49,6 +49,10 @@ def suite():
 
 
 def main():
+    import fcntl
+    # one evaluation per scratch worktree at a time: a second one would revert this one's patch
+    lk = open('/tmp/seedeval_lock_%s' % os.path.basename(WT), 'w')
+    fcntl.flock(lk, fcntl.LOCK_EX)
     ap = argparse.ArgumentParser()
     ap.add_argument('pid'); ap.add_argument('k')
     ap.add_argument('--src'); ap.add_argument('--tier', default='quick'); ap.add_argument('--also', nargs='*', default=[])
